@@ -48,6 +48,7 @@ def run(ctx):
                 seen_known.add(f["key"])
                 ctx.known_finding("%s (e.g. %s of P=%s Q=%s)" % (f["what"], c["desc"].get("op"), c["desc"].get("P"), c["desc"].get("Q")))
             continue
+        _bo.dump_bad(ctx, c, kind, detail)
         if reported < 3:
             ctx.violation(_bo.describe(ctx, c, kind, detail, "bo"), "%s: %s of %s and %s" % (kind, c["desc"].get("op"), c["desc"].get("P"), c["desc"].get("Q")))
         reported += 1
